@@ -145,5 +145,20 @@ if __name__ == "__main__":
                 meta = json.loads((d / "meta.json").read_text())
                 ids = sorted({k.split(":")[0] for k in meta.get("checks", {})}) or [meta["property"]]
                 verify(d.name, ids, "quick", False)
+    elif a[0] == "table-md":
+        rows = ["| seeded change | property | valid (demo passes unmodified, fails patched, repo suite passes patched) | caught by | not caught by (secondary checks) |", "|---|---|---|---|---|"]
+        for d in sorted(SEEDED.iterdir()):
+            m = d / "meta.json"
+            if not m.exists():
+                continue
+            meta = json.loads(m.read_text())
+            v = meta.get("verified", {})
+            ok = v.get("demo_exit_unmodified") == 0 and v.get("demo_exit_patched") not in (0, None) and v.get("repo_tests", {}).get("exit") == 0
+            ch = meta.get("checks", {})
+            caught = sorted(k.split(":")[0] for k, r in ch.items() if r["verdict"] == "caught")
+            missed = sorted(k.split(":")[0] for k, r in ch.items() if r["verdict"] != "caught")
+            rows.append(f"| {d.name} | {meta['property']} | {'yes' if ok else 'NO'} | {', '.join(caught) or '-'} | {', '.join(missed) or '-'} |")
+        (SEEDED / "TABLE.md").write_text("\n".join(rows) + "\n")
+        print("\n".join(rows))
     elif a[0] == "table":
         table()
